@@ -345,6 +345,10 @@ def validation_rule(rep, u):
         bad = [t for t in targets if t[0] in r]
         return blocks, bad
     ctg = r_mpt.success_returns(chk)
+    # a public key is a finite point: the flag is tested (the coordinates of an object whose flag says 'infinity' are those of
+    # whatever point it held before, and those pass the curve equation) - key generation with d = 0 relies on this
+    n += 1
+    r_mpt.check_guard(rep, chk, "point->infinity", r_mpt.field_atom("infinity"), (0, 1), (0,))
     for callee in ("ec_point_check_affine", "ec_point_check_scalar_mult"):
         blocks, bad = passes(chk, ctg, {callee}, callee)
         desc = "every success return of ec_point_check_as_pub_key passes %s" % callee
